@@ -84,3 +84,16 @@ func VerifTracked(c *Cache) (map[string]bool, bool) {
 	}
 	return tracked, c.watch.watcher != nil
 }
+
+// VerifWatchErrors returns the channel on which the watcher of the cache
+// reports errors to the goroutine watching the Spec directories (nil if the
+// cache has no watcher), so that a harness can make it report one, the way
+// fsnotify does when for instance the kernel's event queue overflows.
+func VerifWatchErrors(c *Cache) chan error {
+	c.Lock()
+	defer c.Unlock()
+	if c.watch.watcher == nil {
+		return nil
+	}
+	return c.watch.watcher.Errors
+}
